@@ -13,6 +13,7 @@ import Lattigo.Model.Decomp
   moddown qptoq|qptop Q P levelQ levelP p1Q p1P            -> rows
   moddownntt N Q gQ P gP levelQ levelP p1Q p1P             -> rows  ModDownQPtoQNTT
   decomp Q P hasP levelQ levelP nbPi d p0Q prevQ           -> rowsQ|rowsP
+  decompntt N Q gQ P gP levelQ levelP nbPi size isNTT c2   -> rowsQ|rowsP/…  rlwe.Evaluator.DecomposeNTT (one pair per digit)
   mask w mask p1                          -> vec                    ring.MaskVec
   extsmall q0 P levelP row0               -> rows                   ringqp ExtendBasisSmallNormAndCenter
   extsmallntt N q0 g0 P gP levelP row0    -> rows                   rlwe.ExtendBasisSmallNormAndCenterNTTMontgomery
@@ -84,6 +85,13 @@ def handle (toks : List String) : String :=
       | some (a, b) => s!"{showRows a}|{showRows b}"
       | none => "panic"
     | _, _, _, _, _, _, _, _, _ => badOp
+  | ["decompntt", n, Q, gQ, P, gP, lq, lp, nbPi, size, isNTT, c2] =>
+    match n.toNat?, parseVec? Q, parseVec? gQ, parseVec? P, parseVec? gP, lq.toNat?, lp.toNat?, nbPi.toNat?, size.toNat?, isNTT.toNat?, parseMat? c2 with
+    | some n, some Q, some gQ, some P, some gP, some lq, some lp, some nbPi, some size, some isNTT, some c2 =>
+      match Decomp.decomposeNTT (Scaling.mkTabs n Q gQ) (Scaling.mkTabs n P gP) Q P lq lp nbPi size (isNTT != 0) c2 with
+      | some ds => "/".intercalate (ds.map fun (a, b) => s!"{showRows a}|{showRows b}")
+      | none => "panic"
+    | _, _, _, _, _, _, _, _, _, _, _ => badOp
   | ["mask", w, mask, p1] =>
     match w.toNat?, mask.toNat?, parseVec? p1 with
     | some w, some mask, some p1 => showVec (Decomp.maskVec w mask p1)
